@@ -1,5 +1,6 @@
 import Martian.Lemmas.H2Relay
 import Martian.Generated.H2Relay
+import Martian.Props.C09.Settings
 /-!
 C09 — HTTP/2 relay obeys receiver windows, returns exact credit, never strands data.
 
